@@ -8,6 +8,7 @@ HasAccessibles.__init_subclass__ machinery, so that programs (C09) and configura
         ['bool']     ['enum', {name: value}]           ['string', {minchars, maxchars, isUTF8}]     ['blob', lo, hi]
         ['array', member, minlen, maxlen]              ['tuple', [member, ...]]
         ['struct', {name: member}, optional-list | None]
+        ['shared', name]   the one datatype object `name` of the program (vf.genmods.SHARED), not a new one
         ['status', '<frappy base class>', [standard status names]]     ['limits', member]  (LimitsType)
     class record   {'bases': [names of menu classes or of frappy classes], 'body': {attr: item}}
     body item      ['P', {Parameter kwds; 'datatype' is a datatype spec}]         a Parameter(...)
@@ -52,11 +53,18 @@ FRAPPY_BASES = {
 }
 
 
+# datatype OBJECTS shared by several declarations of one program (a module level constant of a driver, e.g.
+# PERCENT = FloatRange(0, 100, unit='%')): set by the harness for the program being built, referred to as ['shared', name]
+SHARED = {}
+
+
 def dt(spec):
-    """datatype spec -> fresh frappy datatype object (public constructors only)"""
+    """datatype spec -> fresh frappy datatype object (public constructors only); ['shared', name] -> the shared object"""
     if spec is None:
         return None
     k = spec[0]
+    if k == 'shared':
+        return SHARED[spec[1]]
     if k == 'double':
         return D.FloatRange(**(spec[1] if len(spec) > 1 else {}))
     if k == 'int':
